@@ -378,6 +378,18 @@ func c03FamiliesWith(tier string, check func(x *engine.Exec, cd *Codec, in []byt
 		})
 		check(x, c.Codec, in, "edit", c03LightCombos(len(in)))
 	})
+	// the deeply nested valid documents themselves (31-257 levels, every container form, length-prefixed leaves): no panic,
+	// linear steps, proportional allocation at and beyond the sizes of the parsers' inline stacks
+	for _, f := range allDocFamilies(edSc, func(x *engine.Exec, c *DocCase) {
+		x.Case(c.Codec.Name+string(c.Doc), true)
+		x.Sample(func() interface{} { return map[string]interface{}{"codec": c.Codec.Name, "hex": hexs(c.Doc)} })
+		check(x, c.Codec, c.Doc, "deep", c03LightCombos(len(c.Doc)))
+	}) {
+		if strings.Contains(f.Name, "-deep") {
+			f.Name += "-valid"
+			fams = append(fams, f)
+		}
+	}
 	var keep []engine.Family
 	for _, f := range ed {
 		if f.Name == "json-int-boundaries" || f.Name == "ubj-noop-insertions" || strings.HasSuffix(f.Name, "-deeper") {
